@@ -416,7 +416,13 @@ func extractPlan(p *Prog) (*scanPlan, error) {
 // over provenance atoms (boolean helpers inlined, conjunctions flattened). A condition that does not
 // flatten into literals (the negative side of a conjunction) is returned as one opaque literal.
 func pathLiterals(p *Prog, fn *ssa.Function, b *ssa.BasicBlock) []*qf {
-	qz := &quantizer{p: p, elemVar: map[ssa.Value]string{}, inlineAll: true}
+	return pathLiteralsWith(&quantizer{p: p, elemVar: map[ssa.Value]string{}, inlineAll: true}, fn, b)
+}
+
+// pathLiteralsWith: as pathLiterals, with the caller's quantizer (its provenance options apply).
+func pathLiteralsWith(qz *quantizer, fn *ssa.Function, b *ssa.BasicBlock) []*qf {
+	p := qz.p
+	_ = p
 	var out []*qf
 	var flat func(q *qf)
 	flat = func(q *qf) {
